@@ -679,6 +679,8 @@ class Parser:
                 start = {"lineno": atom.lineno, "col_offset": atom.col_offset}
                 node = xonsh_call(f"__xonsh__.{fn}", atom, **start, **tok.loc_end())
             else:
+                if not isinstance(atom, ast.Name):
+                    self.raise_syntax_error_known_location("only a name can follow '.' in a help lookup", atom)
                 attr = ast.Attribute(
                     value=node,
                     attr=atom.id,
